@@ -40,7 +40,9 @@ func encodeTLS(v *wireVec) (*wireCase, error) {
 		// hello = record header (5) + handshake message; cut the handshake message in two
 		body := hello[5:]
 		cut := len(body) / 2
-		rec := func(b []byte) []byte { return append([]byte{0x16, hello[1], hello[2], byte(len(b) >> 8), byte(len(b))}, b...) }
+		rec := func(b []byte) []byte {
+			return append([]byte{0x16, hello[1], hello[2], byte(len(b) >> 8), byte(len(b))}, b...)
+		}
 		c.first = rec(body[:cut]) // its handshake header announces len(body)-4 bytes, the record carries cut-4
 		if ms_(m, "kind") == "twofrag" {
 			c.first = append(c.first, rec(body[cut:])...)
